@@ -2,13 +2,15 @@
 from vr import Obl
 
 META = {
-    "explanation": "E1: stack-provenance round trips with a symbolic stack size; memory-pool steps from symbolic pool states",
+    "explanation": "E1: stack-provenance round trips with a symbolic stack size; memory-pool steps from symbolic pool states (local alloc/free, taking a bucket by carving pages with a symbolic failing page allocation, returning partial buckets), routing of freed blocks to a pool of their own class for every freeing identity; E2: the lock-free tagged-pointer LIFO with complete pushes/pops of other agents (incl. A-B-A sequences and garbage link words) at every atomic access",
     "assumptions": [
         "allocation succeeds (C18 covers failure); mprotect succeeds; stack guard NONE/canary-less configuration of this build",
         "default stack size is a multiple of 512 (abtd_env.c rounds it; checked by C20's env obligations where present)",
-        "caller of the provenance harness is an external thread (descriptor from malloc); memory-pool provenance is a separate obligation",
+        "caller of the provenance harness is an external thread (descriptor from malloc); memory-pool provenance is decided by the mempool_* / route_* obligations",
+        "the 128-bit CAS instruction (cmpxchg16b, inline assembly) is modelled as an atomic compare-and-swap of 16 bytes that may fail spuriously once; sequential consistency",
+        "memory-pool steps: <=4 blocks per bucket, <=2 local buckets, <=1 global bucket, pages of 3 blocks, <=3 pages; LIFO: <=4 elements, <=3 complete environment operations per focus operation",
     ],
-    "outside": ["mmap/huge-page behaviour of the kernel", "whole-run conservation at ABT_finalize (per-operation conservation is shown instead)"],
+    "outside": ["mmap/huge-page behaviour of the kernel", "mprotect-guarded pools (stack guard pages)", "two partially executed LIFO operations interleaved with each other (only complete operations interleave with the focus)", "whole-run conservation at ABT_finalize (per-operation conservation is shown instead)"],
 }
 
 
@@ -20,6 +22,29 @@ def obligations(tier):
         o.append(Obl("stack_" + nm, "C15/stack.c", d, defs=["PROV=%d" % p], unwind=3, flags=["--memory-leak-check"], backend="cadical",
                      encodes=["ABTI_mem_alloc_ythread_malloc_desc_stack", "ABTI_mem_alloc_ythread_mempool_desc_stack", "ABTI_mem_alloc_ythread_mempool_desc", "ABTI_mem_free_thread", "ABTD_ythread_context_init"],
                      bounds="stack size: any value in [1, 16 MiB] (64-bit bit-vector)", symbolic="stack size, default stack size, user stack offset"))
+    for op, nm, bud, uw, to in [(0, "push", 2, 5, 300), (1, "pop", 3, 6, 500)]:
+        o.append(Obl("lifo_" + nm, "C15/lifo.c", "real ABTI_sync_lifo_%s as focus; at each of its atomic accesses the solver may run complete real pushes/pops of other agents (an owner may scribble on a popped element before pushing it back: A-B-A); weak CAS may fail spuriously: list == ghost stack after every completed operation, pop returns the top at its linearisation point" % nm,
+                     defs=["OP=%d" % op, "ENV_BUDGET=%d" % bud], unwind=uw, object_bits=11, backend="cadical", no_std=["--pointer-overflow-check"], timeout=to, mem_gb=8,
+                     encodes=["ABTI_sync_lifo_push", "ABTI_sync_lifo_pop", "ABTD_atomic_bool_cas_weak_tagged_ptr", "ABTD_atomic_acquire_load_non_atomic_tagged_ptr"],
+                     bounds="LIFO of 0..2 elements + 2 outside, <=%d environment operations, 1 spurious CAS failure, arbitrary initial tag (wrap-around included)" % bud, symbolic="initial content and tag, owners, placement and kind of environment operations, garbage link words"))
+    o.append(Obl("mempool_partial", "C15/mempool.c", "mem_pool_return_partial_bucket: P partial + B returned headers, N per bucket, all symbolic: complete buckets only in the global LIFO, the rest in the partial bucket with the right counter, nothing lost",
+                 defs=["MODE=0"], unwind=11, object_bits=11, backend="cadical", no_std=["--pointer-overflow-check"], encodes=["mem_pool_return_partial_bucket", "ABTI_mem_pool_return_bucket", "ABTI_sync_lifo_push"],
+                 bounds="N <= 4, P < N, B < N", symbolic="N, P, B, LIFO tag"))
+    quick_cfg = [(4, 2, 16), (3, 0, 0), (2, 2, 48), (4, 0, 48), (1, 2, 0), (4, 1, 0)]
+    all_cfg = [(n, u, off) for n in (1, 2, 3, 4) for u in (0, 1, 2) for off in (0, 16, 48)]
+    for (n, u, off) in (quick_cfg if tier == "quick" else all_cfg):
+        o.append(Obl("mempool_take_n%du%do%d" % (n, u, off), "C15/mempool.c", "ABTI_mem_pool_take_bucket carving %d blocks (page 0 already used by %d, header offset %d) from pages; the k-th page allocation fails (k symbolic): N distinct in-page blocks clear of live blocks and page descriptors / on failure the carved blocks are conserved in the partial bucket, never an incomplete bucket in the LIFO; pages registered exactly once" % (n, u, off),
+                     defs=["MODE=1", "NPB=%d" % n, "U=%d" % u, "OFF=%d" % off], unwind=5, object_bits=11, backend="cadical", no_std=["--pointer-overflow-check"], mem_gb=8, timeout=300,
+                     encodes=["ABTI_mem_pool_take_bucket", "mem_pool_return_partial_bucket", "ABTI_sync_lifo_pop", "ABTI_sync_lifo_push"], bounds="pages of 3 blocks of 64 bytes, <=3 pages", symbolic="which page allocation fails, LIFO tags"))
+    for op, nm in [(0, "alloc"), (1, "free")]:
+        o.append(Obl("mempool_local_" + nm, "C15/mempool.c", "ABTI_mem_pool_%s on a local pool in an arbitrary valid state (bucket index, fill level, N, global bucket present or not; refill fails): the block handed out was free and is not free afterwards / the freed block is free afterwards; nothing else moves; a failed allocation changes nothing" % nm,
+                     defs=["MODE=2", "OP=%d" % op], unwind=11, object_bits=11, backend="cadical", no_std=["--pointer-overflow-check"],
+                     encodes=["ABTI_mem_pool_alloc", "ABTI_mem_pool_free", "ABTI_mem_pool_take_bucket", "ABTI_mem_pool_return_bucket"], bounds="N in 2..3, <=2 local buckets, <=1 global bucket", symbolic="N, bucket index, fill level, global bucket, garbage in the freed block"))
+    for k, nm in [(0, "tasklet"), (1, "ult_default"), (2, "ult_userstack"), (3, "desc")]:
+        o.append(Obl("route_" + nm, "C15/memroute.c", "block allocated on ES0 by the real routine (%s) and freed by the real routine on the same stream, another stream or an external thread (symbolic): it lands in the freer's pool OF THE SAME CLASS (descriptor vs stack), global pools under their own lock, every block in exactly one pool" % nm,
+                     defs=["KIND=%d" % k], unwind=13, unwindset=["ABTD_spinlock_acquire.0:2", "ABTD_spinlock_acquire.1:2"], object_bits=11, backend="cadical", no_std=["--pointer-overflow-check"],
+                     encodes=["ABTI_mem_alloc_nythread", "ABTI_mem_alloc_ythread_default", "ABTI_mem_alloc_ythread_mempool_desc", "ABTI_mem_alloc_desc", "ABTI_mem_free_thread", "ABTI_mem_free_desc", "ABTI_mem_pool_alloc", "ABTI_mem_pool_free"],
+                     bounds="6 local pools with 2 blocks each, 3 blocks per bucket", symbolic="identity of the freeing agent"))
     return o
 
 MANIFEST_ENTRY = {
